@@ -141,7 +141,8 @@ def move_staticmethod_static_scope(source: str, preserve: Collection[str]) -> st
         for funcdef in parsing.iter_funcdefs(classdef):
             if funcdef.name in attributes_to_preserve:
                 continue
-            if f"{classdef.name}.{funcdef.name}" in preserve:
+            if f"{classdef.name}.{funcdef.name}" in preserve or funcdef.name in preserve:
+                # The names used by preserved files are plain attribute names, without the class
                 continue
             if parsing.is_magic_method(funcdef):
                 continue
